@@ -31,6 +31,7 @@ type Engine struct {
 	pkgNames      map[string]string
 	loadErrors    []string
 	tiBin         string
+	modPkgs       []string
 }
 
 func loadEngine(repo string, overlay map[string][]byte) (*Engine, error) {
